@@ -458,6 +458,10 @@ class PlanStrategy(_StrategyBase):
             a.balance = a.balance * 5 + 1
         self.broker.allow_negative_balance = True
         self.broker.quote_token = None
+        # the price table this run was handed (Strategy.prices, the run's own copy): every cell of its first column tripled
+        pr = getattr(self, "prices", None)
+        if isinstance(pr, pd.DataFrame) and len(pr.columns) and len(pr.index):
+            pr.iloc[:, 0] = [x * 3 for x in pr.iloc[:, 0]]
 
     # -- observation
     def _write(self, status):
